@@ -184,7 +184,8 @@ class World:
                     os.unlink(fname)
             listed = set(app_zk.list_traces(zk, '*'))
             for name in sorted(raw):
-                items.append(dict(name=name, n=raw[name], loop=1 if name in listed else 0))
+                items.append(dict(name=name, n=raw[name], loop=1 if name in listed else 0,
+                                  ordered=True))
             return items
         mod, table, hist = ((app_zk, TABLE['trace'], z.TRACE_HISTORY) if kind == 'trace'
                             else (server_zk, TABLE['server'], z.SERVER_TRACE_HISTORY))
@@ -204,9 +205,25 @@ class World:
                                    event_data, ctx):
                     seen[','.join((object_name, timestamp, source, event_type, event_data))] += 1
 
-            Loop(zk, obj, None).run(snapshot=True)
+            listed = []
+            real_gc = zk.get_children
+
+            def spy(path, *a, **k):
+                r = real_gc(path, *a, **k)
+                if path == hist:
+                    listed.append(list(r))
+                return r
+            zk.get_children = spy
+            try:
+                Loop(zk, obj, None).run(snapshot=True)
+            finally:
+                del zk.get_children
+            # _process_db_events iterates the listing as ZooKeeper returns it and the loop
+            # drops everything older than the last event handed on: only an oldest-first
+            # listing guarantees that nothing is skipped
+            ordered = all(l == sorted(l) for l in listed)
             for name in sorted(set(raw) | set(seen)):
-                items.append(dict(name=name, n=raw[name], loop=seen[name]))
+                items.append(dict(name=name, n=raw[name], loop=seen[name], ordered=bool(ordered)))
         return items
 
     def _finished_table(self):
@@ -260,12 +277,23 @@ class World:
         store.gate = gate
         crashed = False
         shim = _TimeShim(self)
+        forder = []
+        real_gc = self.zk.get_children
+
+        def spy(path, *a, **k):
+            # cleanup_finished forms its batches in the order ZooKeeper lists /finished
+            r = real_gc(path, *a, **k)
+            if path == z.FINISHED and not forder:
+                forder.extend(r)
+            return r
+        self.zk.get_children = spy
         try:
             with mock.patch.object(app_zk, 'time', shim):
                 fn()
         except zkfake.InjectedCrash:
             crashed = True
         finally:
+            del self.zk.get_children
             store.gate = None
             store.fail_at = None
         applied = store.writes - (1 if crashed else 0)
@@ -273,7 +301,7 @@ class World:
             fire(lambda it: True)       # the run ended before the planned point
         else:
             plan[:] = []                # the process died: later points never come
-        done.update(crashed=crashed, nw=applied)
+        done.update(crashed=crashed, nw=applied, forder=forder)
         return done
 
     def archive(self, kind, batch, expiry_s, cut=0, inject=None):
@@ -403,7 +431,8 @@ def _line(ev, step, res, post):
                 crashed=bool(res.get('crashed', False)), nw=int(res.get('nw', 0)),
                 injected=bool(ev == 'Archive' and any(it[2][0] != 'Read' for it in step[5])),
                 added=res['added'], unsched=res['unsched'], newsched=res['newsched'],
-                touched=res['touched'], tick=res['tick'], reads=res.get('reads', []))
+                touched=res['touched'], tick=res['tick'], reads=res.get('reads', []),
+                forder=res.get('forder', []))
     return line
 
 
